@@ -158,6 +158,16 @@ impl Number {
             if exp.unwrap() < 0 && self.value == Numeric::zero() {
                 return Err("Division by zero".to_string());
             }
+            // Powers of powers multiply the dimension exponents, which
+            // are machine integers. Keep them far from overflowing.
+            let in_range = |power: &i64| {
+                power
+                    .checked_mul(exp.unwrap())
+                    .map_or(false, |p| p.abs() <= i32::MAX as i64)
+            };
+            if !self.unit.iter().all(|(_, power)| in_range(power)) {
+                return Err("Exponent is too large".to_string());
+            }
             Ok(self.powi(exp.unwrap() as i32))
         } else if small_root {
             let exp: Option<i64> = den.as_int();
